@@ -83,7 +83,7 @@ def check_map(spec32, ihmax, lab):
         return "label-out-of-range", 0
     lev = levels(spec32, ihmax)
     if lev is None:
-        return ("constant-not-zero" if np.any(lab != 0) else None), 0
+        return ("constant-not-uniform" if (np.any(lab != lab.flat[0]) or lab.max() > 1) else None), 0
     if lab.min() < 1:
         return "unlabelled-bin", -1
     comp, isreg = regional_maxima(lev)
